@@ -3,6 +3,7 @@ package props
 import (
 	"bytes"
 	"fmt"
+	"sync"
 	"testing"
 
 	"github.com/fiorix/go-diameter/v4/diam"
@@ -262,6 +263,15 @@ func runCodec(t *testing.T, prop string, c01, c02 bool) *ev.Rec {
 		m := &gen.Msg{H: refcodec.Header{Version: 1, Flags: 0x80, Code: 8388000, HopByHop: 1, EndToEnd: 2}, Nodes: cur}
 		codecCase(c, ctx, m, c.I, c01, c02, "")
 	})
+	// one message object serialised by several goroutines at once (a request sent to
+	// several peers, a retransmission racing the first write): every emission must be
+	// the reference image; under the race build any write to the shared message is a
+	// reported data race
+	rec.Suite("shared-message", rec.N(300, 20000), func(c *ev.Case) {
+		ctx := ctxs[c.I%len(ctxs)]
+		m := drawMsg(c, ctx, &gen.Opts{MaxDepth: 5, MaxAVPs: 6 + c.R.IntN(20)})
+		sharedMessage(c, ctx, m, c01, c02)
+	})
 	// known-risk Address classes, wire direction only (the API cannot express them)
 	rec.Suite("risk-address", rec.N(2000, 50000), func(c *ev.Case) {
 		ctx := ctxs[c.I%len(ctxs)]
@@ -312,4 +322,105 @@ func wireOnly(c *ev.Case, ctx *lib.Ctx, m *gen.Msg, c01, c02 bool, risk string) 
 func TestC01(t *testing.T) {
 	rec := runCodec(t, "C01", true, false)
 	rec.Close()
+}
+
+// sharedMessage: G goroutines serialise the same *diam.Message through every
+// emitting entry point at the same time.
+func sharedMessage(c *ev.Case, ctx *lib.Ctx, m *gen.Msg, c01, c02 bool) {
+	refwire := refcodec.EncodeMessage(m.H, m.Nodes)
+	var dm *diam.Message
+	var err error
+	fromWire := c.R.IntN(2) == 0
+	if p, bad := guard(func() {
+		if fromWire {
+			dm, err = diam.ReadMessage(bytes.NewReader(refwire), ctx.Parser)
+		} else {
+			dm = lib.Build(ctx.Parser, m, c.R.IntN(4))
+		}
+	}); bad || err != nil {
+		c.Fail(ev.Sig{"op": "shared-build"}, refwire, nil, "building the shared message: %s %v", p, err)
+		return
+	}
+	G := 2 + c.R.IntN(5)
+	rounds := 8 + c.R.IntN(24)
+	c.Class("shared/from-wire=%v/G=%d", fromWire, G)
+	type bad struct {
+		op  string
+		out []byte
+		msg string
+	}
+	var mu sync.Mutex
+	var first *bad
+	report := func(b *bad) {
+		mu.Lock()
+		if first == nil {
+			first = b
+		}
+		mu.Unlock()
+	}
+	start := make(chan struct{})
+	var wg sync.WaitGroup
+	for g := 0; g < G; g++ {
+		ops := make([]int, rounds)
+		for i := range ops {
+			ops[i] = c.R.IntN(5)
+		}
+		wg.Add(1)
+		go func() {
+			defer wg.Done()
+			<-start
+			for _, op := range ops {
+				var out []byte
+				var e error
+				name := ""
+				p, panicked := guard(func() {
+					switch op {
+					case 0:
+						name = "Serialize"
+						out, e = dm.Serialize()
+					case 1:
+						name = "SerializeTo"
+						out = make([]byte, dm.Len())
+						e = dm.SerializeTo(out)
+					case 2:
+						name = "WriteTo"
+						var buf bytes.Buffer
+						_, e = dm.WriteTo(&buf)
+						out = buf.Bytes()
+					case 3:
+						name = "WriteToWithRetry"
+						var buf bytes.Buffer
+						_, e = dm.WriteToWithRetry(&buf, 2)
+						out = buf.Bytes()
+					case 4:
+						name = "Len"
+						if l := dm.Len(); l != len(refwire) {
+							e = fmt.Errorf("Len()=%d, the image has %d bytes", l, len(refwire))
+						}
+						out = refwire
+					}
+				})
+				if panicked {
+					report(&bad{name, nil, "panic: " + p})
+					return
+				}
+				if e != nil || !bytes.Equal(out, refwire) {
+					report(&bad{name, out, fmt.Sprintf("err=%v, first difference at byte %d (emitted %d bytes, reference %d)", e, firstDiff(out, refwire), len(out), len(refwire))})
+					return
+				}
+			}
+		}()
+	}
+	close(start)
+	wg.Wait()
+	c.Event("shared_message_emissions", G*rounds)
+	if first != nil {
+		c.Fail(ev.Sig{"op": "shared-message-emission", "call": first.op}, refwire, map[string]any{"emitted": ev.Hex(first.out)},
+			"%d goroutines emitting one message at the same time: %s %s", G, first.op, first.msg)
+		return
+	}
+	if c02 && int(dm.Header.MessageLength) != len(refwire) {
+		c.Fail(ev.Sig{"op": "shared-message-length"}, refwire, nil, "Header.MessageLength=%d after concurrent emissions of a %d-byte message", dm.Header.MessageLength, len(refwire))
+	}
+	_ = c01
 }
